@@ -148,8 +148,9 @@ def change_basis_Qbfs_to_Pn(cs):
 
     """
     if hasattr(cs, 'dtype'):
-        # array, initialize as array
-        bs = np.empty_like(cs)
+        # array, initialize as array; the new coefficients are not integers
+        # even if cs are
+        bs = np.empty_like(cs, dtype=np.result_type(cs.dtype, np.float32))
     else:
         # iterable input
         bs = np.empty(len(cs), dtype=config.precision)
@@ -955,8 +956,9 @@ def change_of_basis_Q2d_to_Pnm(cns, m):
 
     cs = cns
     if hasattr(cs, 'dtype'):
-        # array, initialize as array
-        ds = np.empty_like(cs)
+        # array, initialize as array; the new coefficients are not integers
+        # even if cs are
+        ds = np.empty_like(cs, dtype=np.result_type(cs.dtype, np.float32))
     else:
         # iterable input
         ds = np.empty(len(cs), dtype=config.precision)
